@@ -53,8 +53,29 @@ def run_cli(res, ast):
         return
     mb = main["node"]["body"]
     w0 = where(HPBF, main["node"], "main")
+    import pm
+    # role -> variable name, discovered from how the variables are used (no name is assumed)
+    N = {"bits": "bits", "code": "code", "kind": "kind", "opt": "opt", "limit": "limit", "safe": "safe", "has_error": "has_error",
+         "next_is_file": "next_is_file", "next_is_limit": "next_is_limit", "print_help": "print_help"}
+    for m_ in walk_t(mb, "Match"):
+        lits_ = [a_ for a_ in m_["arms"] if a_["pat"]["t"] == "PLit" and a_["pat"]["lit"].get("kind") == "int"]
+        if len(lits_) >= 4 and path_name(strip_paren(m_["expr"])):
+            b_ = pm.match_expr(strip_paren(lits_[0]["body"]), "execute_code::<u8>(&__v_code, __v_kind, __v_opt, __v_limit, __v_safe)") or \
+                pm.match_expr(strip_paren(lits_[0]["body"]), "execute_code::<__v_t>(&__v_code, __v_kind, __v_opt, __v_limit, __v_safe)")
+            if b_:
+                N.update(bits=path_name(strip_paren(m_["expr"])), code=b_["__v_code"], kind=b_["__v_kind"], opt=b_["__v_opt"], limit=b_["__v_limit"], safe=b_["__v_safe"])
+    last_ = mb["stmts"][-1]
+    b_ = pm.match_expr(last_["expr"], "if __v_e { exit(1) } else { exit(0) }") if last_["t"] == "ExprStmt" else None
+    if b_:
+        N["has_error"] = b_["__v_e"]
+    for i_ in walk_t(mb, "If"):
+        c_ = path_name(strip_paren(i_["cond"]))
+        if c_ and any(path_name(x["func"]) == "File::open" for x in walk_t(i_["then"], "Call")):
+            N["next_is_file"] = c_
+        if c_ and any(x["method"] == "parse" for x in walk_t(i_["then"], "MethodCall")) and not any(path_name(x["func"]) == "File::open" for x in walk_t(i_["then"], "Call")):
+            N["next_is_limit"] = c_
     # ------------------------------------------------------------------ the flag match
-    fm = [m for m in walk_t(mb, "Match") if ast.src1(HPBF, m["expr"]).replace(" ", "") == "arg.as_str()"]
+    fm = [m for m in walk_t(mb, "Match") if pm.match_expr(m["expr"], "__v_a.as_str()")]
     if len(fm) != 1:
         res.bad("CLI-FLAGS", f"{HPBF}|main|flag-match", w0, f"expected exactly one `match arg.as_str()`, found {len(fm)}")
     else:
@@ -64,8 +85,8 @@ def run_cli(res, ast):
             w = where(HPBF, a, "main")
             if a["pat"]["t"] == "PWild":
                 b = strip_paren(a["body"])
-                ok = (b["t"] == "MethodCall" and b["method"] == "push_str" and path_name(b["receiver"]) == "code"
-                      and ast.src1(HPBF, b["args"][0]).replace(" ", "") == "&arg")
+                argn = pm.match_expr(fm[0]["expr"], "__v_a.as_str()")["__v_a"]
+                ok = pm.match_expr(b, f"{N['code']}.push_str(&{argn})") is not None
                 res.check(ok, "CLI-FLAGS", f"{HPBF}|main|flag|_", w, f"the default arm must append the argument to the code (`code.push_str(&arg)`); found `{ast.src1(HPBF, a['body'])}`")
                 continue
             lits = [p["lit"]["value"] for p in pats if p["t"] == "PLit" and p["lit"]["kind"] == "str"]
@@ -78,19 +99,19 @@ def run_cli(res, ast):
                 seen[lit] = a
                 exp = None
                 if lit in KIND_FLAGS:
-                    exp = ("kind", "ExecutorKind::" + KIND_FLAGS[lit])
+                    exp = (N["kind"], "ExecutorKind::" + KIND_FLAGS[lit])
                 elif lit.startswith("-O") and lit[2:].isdigit():
-                    exp = ("opt", lit[2:])
+                    exp = (N["opt"], lit[2:])
                 elif lit.startswith("-i") and lit[2:].isdigit():
-                    exp = ("bits", lit[2:])
+                    exp = (N["bits"], lit[2:])
                 elif lit == "--static":
-                    exp = ("safe", "false")
+                    exp = (N["safe"], "false")
                 elif lit == "--limit":
-                    exp = ("next_is_limit", "true")
+                    exp = (N["next_is_limit"], "true")
                 elif lit in ("-f", "-file", "--file"):
-                    exp = ("next_is_file", "true")
+                    exp = (N["next_is_file"], "true")
                 elif lit in ("-h", "-help", "--help"):
-                    exp = ("print_help", "true")
+                    exp = (asg[0] if asg else "print_help", "true")
                 elif lit == "--time":
                     res.ok("CLI-FLAGS", key, w, "timing flag (not part of the property)", nontrivial=False)
                     continue
@@ -113,15 +134,14 @@ def run_cli(res, ast):
             if pn["t"] == "If" and k == "else":
                 conds.append(path_name(strip_paren(pn["cond"])))
             cur = pn
-        chain_ok = conds == ["next_is_limit", "next_is_file"]
+        chain_ok = conds == [N["next_is_limit"], N["next_is_file"]]
         res.check(chain_ok, "CLI-FLAGS", f"{HPBF}|main|consume-chain", w0,
                   f"flags must be interpreted only when the argument is not the operand of -f/--limit (if next_is_file / else if next_is_limit / else match); found guards {conds}")
         # the limit operand
         lim_ok = False
         for i in walk_t(mb, "If"):
-            if path_name(strip_paren(i["cond"])) == "next_is_limit" or (i["t"] == "If" and any(path_name(strip_paren(x["cond"])) == "next_is_limit" for x in [i])):
-                txt = ast.src1(HPBF, i["then"], 400).replace(" ", "")
-                if "next_is_limit=false" in txt and "arg.parse::<usize>()" in txt and "limit=Some(lim)" in txt:
+            if path_name(strip_paren(i["cond"])) == N["next_is_limit"]:
+                if pm.match_stmts(i["then"]["stmts"], N["next_is_limit"] + " = false; if let Ok(__v_l) = __v_a.parse::<usize>() { " + N["limit"] + " = Some(__v_l); } else { __rest; }"):
                     lim_ok = True
         res.check(lim_ok, "CLI-FLAGS", f"{HPBF}|main|limit-operand", w0, "the argument after --limit must be parsed as usize into `limit = Some(..)` and the pending flag cleared")
     # ------------------------------------------------------------------ defaults
@@ -129,24 +149,25 @@ def run_cli(res, ast):
     for s in mb["stmts"]:
         if s["t"] == "Local" and s["pat"]["t"] == "PIdent":
             lets[s["pat"]["name"]] = s
-    for var, want in (("bits", "8"), ("opt", "2"), ("safe", "true"), ("limit", "None")):
+    for role, want in (("bits", "8"), ("opt", "2"), ("safe", "true"), ("limit", "None")):
+        var = N[role]
         s = lets.get(var)
         got = ast.src1(HPBF, s["init"]) if s is not None and s["init"] is not None else None
-        res.check(got == want, "CLI-DEFAULTS", f"{HPBF}|main|default|{var}", where(HPBF, s, "main") if s else w0,
-                  f"default of `{var}` is {got}, documented default is {want}")
+        res.check(got == want, "CLI-DEFAULTS", f"{HPBF}|main|default|{role}", where(HPBF, s, "main") if s else w0,
+                  f"default of `{var}` ({role}) is {got}, documented default is {want}")
     kd = []
     for s in mb["stmts"]:
         if s["t"] == "ExprStmt" and s["expr"]["t"] == "BlockExpr":
             a = assign_of(s["expr"])
             # attributes of expression statements are not kept by the dumper on ExprStmt; recover from source
-            if a and a[0] == "kind":
+            if a and a[0] == N["kind"]:
                 attr = " ".join(x["s"] for x in s["expr"].get("attrs", []) if x["path"] == "cfg").replace(" ", "")
                 kd.append((attr, ast.src1(HPBF, a[1])))
     want = {(X86_CFG.replace(" ", ""), "ExecutorKind::BaseJit"), (("cfg(not(" + X86_CFG[4:-1] + "))").replace(" ", ""), "ExecutorKind::BcInt")}
     res.check(set(kd) == want, "CLI-DEFAULTS", f"{HPBF}|main|default|kind", w0,
               f"default back end must be BaseJit under {X86_CFG} and BcInt otherwise; found {kd}")
     # ------------------------------------------------------------------ width dispatch
-    wm = [m for m in walk_t(mb, "Match") if path_name(strip_paren(m["expr"])) == "bits"]
+    wm = [m for m in walk_t(mb, "Match") if path_name(strip_paren(m["expr"])) == N["bits"]]
     if len(wm) != 1:
         res.bad("CLI-WIDTH", f"{HPBF}|main|width-match", w0, f"expected one `match bits`, found {len(wm)}")
     else:
@@ -162,10 +183,12 @@ def run_cli(res, ast):
                 and b["func"]["path"]["segs"][-1]["args"][0]["s"] == f"u{n}"
             args = [ast.src1(HPBF, a) for a in b["args"]] if b["t"] == "Call" else None
             argtxt.add(tuple(args or ()))
-            res.check(ok and args == ["&code", "kind", "opt", "limit", "safe"], "CLI-WIDTH", key, where(HPBF, arm[0], "main"),
+            res.check(ok and args == ["&" + N["code"], N["kind"], N["opt"], N["limit"], N["safe"]], "CLI-WIDTH", key, where(HPBF, arm[0], "main"),
                       f"{n} bit must run execute_code::<u{n}>(&code, kind, opt, limit, safe); found `{ast.src1(HPBF, b)}`")
     # ------------------------------------------------------------------ kinds
-    km = [m for m in walk_t(ec["node"]["body"], "Match") if path_name(strip_paren(m["expr"])) == "kind"]
+    ecp = [p_["pat"]["name"] for p_ in ec["node"]["sig"]["inputs"] if p_["t"] == "Arg" and p_["pat"]["t"] == "PIdent"]
+    ecp = ecp if len(ecp) == 5 else ["code", "kind", "opt", "limit", "safe"]
+    km = [m for m in walk_t(ec["node"]["body"], "Match") if path_name(strip_paren(m["expr"])) == ecp[1]]
     if len(km) != 1:
         res.bad("CLI-KIND", f"{HPBF}|execute_code|kind-match", where(HPBF, ec["node"], "execute_code"), f"expected one `match kind`, found {len(km)}")
     else:
@@ -175,7 +198,7 @@ def run_cli(res, ast):
             w = where(HPBF, a, "execute_code")
             if vn in EXECUTORS:
                 b = ast.src1(HPBF, a["body"], 200).replace(" ", "")
-                want = f"Some(Box::new({EXECUTORS[vn]}::<C>::create(code,opt)?))"
+                want = f"Some(Box::new({EXECUTORS[vn]}::<C>::create({ecp[0]},{ecp[2]})?))"
                 res.check(b == want, "CLI-KIND", key, w, f"{vn} must build {want}; found `{b}`")
             elif vn in PRINTERS:
                 body = strip_paren(a["body"])
@@ -187,7 +210,7 @@ def run_cli(res, ast):
                 execs = [m["method"] for m in walk_t(a["body"], "MethodCall") if m["method"].startswith("execute")]
                 srcs = [ast.src1(HPBF, c) for c in walk_t(a["body"], "Call") if path_name(c["func"]) and
                         (path_name(c["func"]).endswith("::parse") or path_name(c["func"]).endswith("::create"))]
-                argok = all("(code)" in s.replace(" ", "") or "(code,opt)" in s.replace(" ", "") for s in srcs) and srcs
+                argok = all(f"({ecp[0]})" in s.replace(" ", "") or f"({ecp[0]},{ecp[2]})" in s.replace(" ", "") for s in srcs) and srcs
                 res.check(tail == "None" and not execs and argok, "CLI-KIND", key, w,
                           f"{vn} must print and evaluate to None without executing; tail = {tail}, execute calls = {execs}, sources = {srcs}")
             else:
@@ -197,15 +220,15 @@ def run_cli(res, ast):
     loops = [l for l in walk_t(mb, "ForLoop")]
     okl = len(loops) == 1 and ast.src1(HPBF, loops[0]["expr"]).replace(" ", "") == "env::args().skip(1)"
     res.check(okl, "CLI-CONCAT", f"{HPBF}|main|arg-loop", w0, "arguments must be processed by one in-order loop over env::args().skip(1)")
-    codes = [s for s in mb["stmts"] if s["t"] == "Local" and s["pat"].get("name") == "code"]
+    codes = [s for s in mb["stmts"] if s["t"] == "Local" and s["pat"].get("name") == N["code"]]
     res.check(len(codes) == 1 and ast.src1(HPBF, codes[0]["init"]) == "String::new()", "CLI-CONCAT", f"{HPBF}|main|code-var", w0,
               "there must be one `let mut code = String::new()`")
     if loops:
         rts = [m for m in walk_t(loops[0], "MethodCall") if m["method"] == "read_to_string"]
-        ok = len(rts) == 1 and ast.src1(HPBF, rts[0]["args"][0]).replace(" ", "") == "&mutcode"
+        ok = len(rts) == 1 and ast.src1(HPBF, rts[0]["args"][0]).replace(" ", "") == "&mut" + N["code"]
         res.check(ok, "CLI-CONCAT", f"{HPBF}|main|file-append", w0, "file contents must be appended to `code` (read_to_string(&mut code)) inside the argument loop")
-        writes = [a for a in walk_t(mb, "Assign") if path_name(a["left"]) == "code"]
-        clears = [m for m in walk_t(mb, "MethodCall") if path_name(m["receiver"]) == "code" and m["method"] in ("clear", "truncate", "insert_str", "insert", "replace_range")]
+        writes = [a for a in walk_t(mb, "Assign") if path_name(a["left"]) == N["code"]]
+        clears = [m for m in walk_t(mb, "MethodCall") if path_name(m["receiver"]) == N["code"] and m["method"] in ("clear", "truncate", "insert_str", "insert", "replace_range")]
         res.check(not writes and not clears, "CLI-CONCAT", f"{HPBF}|main|append-only", w0, "`code` must only ever be appended to")
     # ------------------------------------------------------------------ mode
     eb = ec["node"]["body"]
@@ -250,24 +273,25 @@ def run_cli(res, ast):
                 blk = cur
                 break
         txt = ast.src1(HPBF, blk, 600).replace(" ", "") if blk else ""
-        res.check("has_error=true;" in txt, "CLI-EXIT", f"{HPBF}|main|print_error|{i}", where(HPBF, c, "main"),
+        res.check(N["has_error"] + "=true;" in txt, "CLI-EXIT", f"{HPBF}|main|print_error|{i}", where(HPBF, c, "main"),
                   "a diagnosed error does not set has_error: the process would exit 0")
     res.check(len(pes) >= 3, "CLI-EXIT", f"{HPBF}|main|print_error-sites", w0, f"expected the two file errors and the execution error to be reported; found {len(pes)} print_error calls")
     last = mb["stmts"][-1]
     t = ast.src1(HPBF, last, 200).replace(" ", "")
-    res.check(t.startswith("ifhas_error{exit(1)}else{exit(0)}"), "CLI-EXIT", f"{HPBF}|main|exit", where(HPBF, last, "main"),
+    res.check(t.startswith("if" + N["has_error"] + "{exit(1)}else{exit(0)}"), "CLI-EXIT", f"{HPBF}|main|exit", where(HPBF, last, "main"),
               f"main must end with `if has_error {{ exit(1) }} else {{ exit(0) }}`; found `{t[:80]}`")
     # execution only when no error so far, and its Err is reported
     run_ok = False
     for i in walk_t(mb, "If"):
         c = ast.src1(HPBF, i["cond"]).replace(" ", "")
-        if c == "!has_error" and wm and any(x is wm[0] for x in walk(i["then"])):
+        if c == "!" + N["has_error"] and wm and any(x is wm[0] for x in walk(i["then"])):
             inner = [j for j in walk_t(i["then"], "If") if strip_paren(j["cond"])["t"] == "Let"]
             for j in inner:
                 p = strip_paren(j["cond"])["pat"]
-                if p["t"] == "PTupleStruct" and p["path"]["name"] == "Err":
+                if p["t"] == "PTupleStruct" and p["path"]["name"] == "Err" and p["elems"][0]["t"] == "PIdent":
+                    en = p["elems"][0]["name"]
                     tt = ast.src1(HPBF, j["then"], 200).replace(" ", "")
-                    run_ok = "print_error(error);" in tt and "has_error=true;" in tt
+                    run_ok = f"print_error({en});" in tt and N["has_error"] + "=true;" in tt
     res.check(run_ok, "CLI-EXIT", f"{HPBF}|main|run-guard", w0, "execution must happen only when no error was diagnosed, and its Err must be printed and set has_error")
     # print_error writes to stderr for the bracket and file errors
     pm = [m for m in walk_t(pe["node"]["body"], "Match")]
